@@ -49,6 +49,9 @@ ASSUMPTIONS = [
     'with stiffness magnitudes above 1e3)',
     'arrays of points have N >= 2 rows: both solvers deliberately squeeze a (1,3) input to a single-point result',
     'oracle shares numpy/LAPACK with the code under test',
+    're-solve histories: the state of an object between a refused solve() (ValueError) and the next accepted one is not judged; '
+    'a re-solved object and a fresh object for the same arguments must agree to 1e-12 relative (same arithmetic; the moduli may be stated in two ways); '
+    'the caller does not modify arrays it handed in (m, n are kept by reference inside the solution)',
 ]
 CONFIG = {'quick': dict(shards=8, seeds=1, timeout=900), 'thorough': dict(shards=16, seeds=3, timeout=3600)}
 
